@@ -150,6 +150,10 @@ class Protocol(metaclass=InlineDocstring):
     def __iter__(self):
         return iter(proto_to_files(self._proto))
 
+    def __call__(self):
+        """Get protocol in the RPC-like format (lets `diff` and `patch` accept a Protocol instance as documented)."""
+        return self._proto
+
     @classmethod
     def from_uri(cls, uri):
         """Loads protocol implementation from various sources and converts it to the RPC-like format.
